@@ -271,8 +271,8 @@ func c19Run(c c19Case, st *c19Stats) (violation string, harnessErr error) {
 	}
 	closed := false
 	defer func() {
-		if !closed {
-			if note := env.close(); note != "" {
+		if !closed { // violation / early return: the engine may be wedged, do not wait long
+			if note := env.closeWithin(1500 * time.Millisecond); note != "" {
 				st.notes = append(st.notes, note)
 			}
 		}
@@ -309,7 +309,7 @@ func c19Run(c c19Case, st *c19Stats) (violation string, harnessErr error) {
 			ctxTimeout = 40 * time.Millisecond // these routes do not return on their own
 		}
 		panicsBefore := c19Logs.count()
-		resp, err := env.serve(r.Method, target, rd, ctxTimeout)
+		resp, err := env.serve(r.Method, target, rd, ctxTimeout, c19HangLimit(stream != nil))
 		if err != nil {
 			st.label("skip:unsendable")
 			continue
@@ -319,7 +319,7 @@ func c19Run(c c19Case, st *c19Stats) (violation string, harnessErr error) {
 
 		// (1) liveness / crash path
 		if resp.hung {
-			return what + ": the call did not return within 45s", nil
+			return c19HungPrefix + what + ": the call did not return within " + c19HangLimit(stream != nil).String(), nil
 		}
 		if resp.escaped != "" {
 			return what + ": a panic escaped the whole handler chain: " + resp.escaped, nil
@@ -456,6 +456,26 @@ func c19Run(c c19Case, st *c19Stats) (violation string, harnessErr error) {
 	return "", nil
 }
 
+const c19HungPrefix = "HUNG: "
+
+// c19HangLimit: a request against the 4-vector fixture answers in milliseconds;
+// 20 s without an answer is a hung call (the 512 MB probe gets 4 minutes).
+func c19HangLimit(big bool) time.Duration {
+	if big {
+		return 4 * time.Minute
+	}
+	return 20 * time.Second
+}
+
+// c19AfterHang: the handler goroutine is still running (and may spin); the
+// process cannot be reused for shrinking. Record the failure and stop.
+func c19AfterHang(col *verifkit.Collector, c c19Case, msg string) {
+	col.Fail(c, "%s", msg)
+	col.Finish()
+	fmt.Fprintln(os.Stderr, "C19: "+msg)
+	os.Exit(1)
+}
+
 // closeEngineOnly closes the engine but keeps the sandbox.
 func (env *c19Env) closeEngineOnly() string {
 	cl := env.cleanup
@@ -518,6 +538,9 @@ func TestVerif_C19_http(t *testing.T) {
 		if herr != nil {
 			t.Fatalf("harness error: %v", herr)
 		}
+		if strings.HasPrefix(msg, c19HungPrefix) {
+			c19AfterHang(col, c, msg)
+		}
 		if msg != "" {
 			col.Fail(c, "%s", msg)
 			t.Fatal(msg)
@@ -556,6 +579,9 @@ func TestVerif_C19_http(t *testing.T) {
 		record(c, st)
 		if herr != nil {
 			rt.Fatalf("harness error (not a violation): %v", herr)
+		}
+		if strings.HasPrefix(msg, c19HungPrefix) {
+			c19AfterHang(col, c, msg)
 		}
 		if msg != "" {
 			col.Fail(c, "%s", msg)
